@@ -213,16 +213,14 @@ func checkCDXOutput(doc *sbom.Document, out []byte, f formats.Format) error {
 	if len(nl.Nodes) == 0 {
 		return nil
 	}
-	root := nl.RootElements[0]
+	// where the serializer puts a root element (metadata.component or the top of the component list, or which of
+	// several roots) is its choice: the statement is about nodes, relationships and references
+	root := ""
 	o := &cdxOcc{count: map[string]int{}, parents: map[string][]string{}}
-	mdc := jsonObj(jsonObj(j["metadata"])["component"])
-	if mdc == nil {
-		return fmt.Errorf("metadata.component missing")
+	if mdc := jsonObj(jsonObj(j["metadata"])["component"]); mdc != nil {
+		root = jsonStr(mdc["bom-ref"])
+		collectCDX(mdc, "<metadata>", o)
 	}
-	if jsonStr(mdc["bom-ref"]) != root {
-		return fmt.Errorf("metadata.component is %q, want the root element %q", jsonStr(mdc["bom-ref"]), root)
-	}
-	collectCDX(mdc, "<metadata>", o)
 	for _, c := range jsonArr(j["components"]) {
 		collectCDX(jsonObj(c), "<top>", o)
 	}
@@ -282,12 +280,25 @@ func checkCDXOutput(doc *sbom.Document, out []byte, f formats.Format) error {
 			return fmt.Errorf("containment of %q is not expressed: contained by %v, emitted under %v", c, hx.SortedKeys(ps), o.parents[c])
 		}
 	}
+	// no invented containment: a node nested under a component is related to it by a containment statement of the
+	// document (in either direction: `contains` from the container or `contained_by` from the node)
+	containedBy := map[string]map[string]bool{}
+	for _, e := range nl.Edges {
+		if e.Type == sbom.Edge_contained_by {
+			for _, to := range e.To {
+				if containedBy[e.From] == nil {
+					containedBy[e.From] = map[string]bool{}
+				}
+				containedBy[e.From][to] = true
+			}
+		}
+	}
 	for _, n := range nl.Nodes {
 		if n.Id == root || len(containers[n.Id]) > 0 {
 			continue
 		}
 		for _, got := range o.parents[n.Id] {
-			if got != "<top>" {
+			if got != "<top>" && got != "<metadata>" && !containedBy[n.Id][got] {
 				return fmt.Errorf("node %q is contained by nothing but was emitted under %q", n.Id, got)
 			}
 		}
@@ -416,12 +427,20 @@ func checkReadBack(doc *sbom.Document, out []byte, f formats.Format) error {
 			}
 			wantCPE, gotCPE := n.Identifiers[3], m.Identifiers[3]
 			if isCDX {
-				// one CPE only; 2.3 wins
-				if _, ok := n.Identifiers[3]; !ok {
-					wantCPE = n.Identifiers[2]
-				}
+				// CycloneDX holds one CPE: when the node has both kinds, which one survives is the serializer's choice
 				if _, ok := m.Identifiers[3]; !ok {
 					gotCPE = m.Identifiers[2]
+				}
+				_, has22 := n.Identifiers[2]
+				_, has23 := n.Identifiers[3]
+				switch {
+				case has22 && has23:
+					if gotCPE != n.Identifiers[2] && gotCPE != n.Identifiers[3] {
+						return fmt.Errorf("node %q: CPE read back as %q, want one of %q / %q", n.Id, gotCPE, n.Identifiers[3], n.Identifiers[2])
+					}
+					wantCPE = gotCPE
+				case has22:
+					wantCPE = n.Identifiers[2]
 				}
 			} else if n.Identifiers[2] != m.Identifiers[2] {
 				return fmt.Errorf("node %q: CPE 2.2 read back as %q, want %q", n.Id, m.Identifiers[2], n.Identifiers[2])
